@@ -32,6 +32,16 @@ Theorem mint_branch_is_the_reviewed_one :
 Proof. exact mint_shape_reviewed. Qed.
 Print Assumptions mint_branch_is_the_reviewed_one.
 
+Theorem revert_branches_are_the_reviewed_ones :
+  revert_qi_shape_sha256 = ShapeDigest.reviewed_revert_qi_shape_sha256 /\ revert_qi_shape_len = 31 /\
+  revert_quai_shape_sha256 = ShapeDigest.reviewed_revert_quai_shape_sha256 /\ revert_quai_shape_len = 11.
+Proof. exact revert_shapes_reviewed. Qed.
+Print Assumptions revert_branches_are_the_reviewed_ones.
+
+Theorem trim_rule_table_ok : trim_split_ok = true.
+Proof. exact trim_split_ok_true. Qed.
+Print Assumptions trim_rule_table_ok.
+
 (* ---- unit conversion at a fixed rate ---- *)
 
 (* the two rewards that define the rate are positive for every non-negative header field *)
@@ -94,6 +104,38 @@ Theorem mint_loss_bounded : forall v gas,
    denoms_count (find_min_denominations v) <= max_output_index -> ok = true).
 Proof. exact mint_spec. Qed.
 Print Assumptions mint_loss_bounded.
+
+(* destination side of a REVERTED Qi->Quai conversion (ConversionRevert branch of Process refunding Qi,
+   sliced and run): the refund is the split of the original without the pieces of denomination
+   <= MaxTrimDenomination ([dust]) -- at most that, exactly that when the ETX gas pays
+   CallValueTransferGas for every refunded piece. *)
+Theorem refund_qi_loss_bounded : forall v gas,
+  0 <= v -> v < two64 * top_den -> 0 <= gas ->
+  let '(t, i, g, ok) := refund_qi v gas in
+  0 <= dust v /\ 0 <= t <= v - dust v /\ 0 <= i <= max_output_index /\ 0 <= g /\
+  g = gas - i * call_value_transfer_gas /\
+  (ok = true -> t = v - dust v) /\
+  (denoms_count (filter above_trim (find_min_denominations v)) * call_value_transfer_gas <= gas ->
+   denoms_count (filter above_trim (find_min_denominations v)) <= max_output_index -> t = v - dust v).
+Proof. exact refund_qi_spec. Qed.
+Print Assumptions refund_qi_loss_bounded.
+
+(* the protocol's dust rule: what the trim drops is less than the smallest refundable denomination *)
+Theorem dust_rule_bounded : forall v,
+  0 <= v -> v < two64 * top_den -> dust v < smallest_refundable.
+Proof. exact dust_lt_smallest_refundable. Qed.
+Print Assumptions dust_rule_bounded.
+
+(* full statement "a reverted conversion returns exactly the original (less dust) on the origin
+   ledger" is FALSE of the code on the Qi side: (1) with ETX gas 0 -- a conversion that paid exactly
+   the required fee -- nothing comes back; (2) even with ample gas the dust is dropped. *)
+Theorem revert_returns_original_on_qi_ledger_refuted :
+  (exists v, 0 <= v < two64 * top_den /\ 0 < v - dust v /\ fst (fst (fst (refund_qi v 0))) = 0)
+  /\ (exists v gas, 0 <= v < two64 * top_den /\
+        denoms_count (filter above_trim (find_min_denominations v)) * call_value_transfer_gas <= gas /\
+        fst (fst (fst (refund_qi v gas))) < v).
+Proof. exact refund_qi_original_refuted. Qed.
+Print Assumptions revert_returns_original_on_qi_ledger_refuted.
 
 (* ---- the conversion block of Slice.Append ---- *)
 
@@ -215,3 +257,8 @@ Example denominations_nonvacuous :
   find_min_denominations 123456789 = [(13, 1); (12, 2); (11, 3); (10, 4); (9, 2); (8, 1); (7, 1); (6, 1); (5, 1); (4, 2); (3, 1); (2, 3); (1, 1); (0, 4)]
   /\ denoms_sum (find_min_denominations 123456789) = 123456789.
 Proof. vm_compute. split; reflexivity. Qed.
+
+Example refund_nonvacuous :
+  refund_qi 123456789 1000000 = (123456000, 15, 865000, true) /\ dust 123456789 = 789
+  /\ refund_qi 123456789 27000 = (120000000, 3, 0, false) /\ smallest_refundable = 1000.
+Proof. vm_compute. repeat split; reflexivity. Qed.
